@@ -36,6 +36,16 @@ def gen(ctx):
                                precision=ctx.rng.choice(["double", "double", "single"]))
                 cases.append(c)
                 kinds.append(hk)
+    # non-dyadic spacings: on-grid points whose coordinate / spacing rounds just below an integer
+    for (nx, ny, dom) in [(7, 6, (45.0, 21.0)), (6, 7, (10.0, 45.0)), (7, 3, (45.0, 10.0))]:
+        for fp in (True, False):
+            dx, dy = dom[0] / nx, dom[1] / ny
+            c = sc.mk_case(ctx.rng, nx=nx, ny=ny, domain=dom, halo=ctx.rng.choice([0.0, 10.0]), footprint=fp,
+                           meas=(np.linspace(0, dom[0], nx, endpoint=False)[ctx.rng.choice([3, nx - 1])],
+                                 np.linspace(0, dom[1], ny, endpoint=False)[ctx.rng.randrange(ny)]) if fp else (0.0, 0.0),
+                           modes=(6, 6), precision="double")
+            cases.append(c)
+            kinds.append("non-dyadic-spacing")
     return cases, kinds
 
 
@@ -62,8 +72,11 @@ def probe(S, case):
     tol = 1e-4 if case["precision"] == "single" else 1e-9
     halo = case["halo"]
     hk = "default" if halo is None else ("commensurate" if (halo / dx) % 1 == 0 and (halo / dy) % 1 == 0 else "incommensurate")
-    for (im, jm) in {(0, 0), (nx - 1, ny // 2), (nx // 2, ny - 1)}:
-        fpc = dict(case, footprint=True, meas_pt=(im * dx, jm * dy), bg=0.0)
+    xs = np.linspace(0, case["domain"][0], nx, endpoint=False)  # the solver's own grid coordinates
+    ys = np.linspace(0, case["domain"][1], ny, endpoint=False)
+    towers = [(i, j) for i in range(nx) for j in range(ny)] if nx * ny <= 42 and ny <= 3 + (nx * 7919) % 4 else         [(0, 0), (nx - 1, ny // 2), (nx // 2, ny - 1), (3 % nx, 0), (nx - 1, ny - 1)]
+    for (im, jm) in dict.fromkeys(towers):
+        fpc = dict(case, footprint=True, meas_pt=(float(xs[im]), float(ys[jm])), bg=0.0)
         fwc = dict(case, footprint=False, meas_pt=(0.0, 0.0))
         _, G, F = sc.call(S, fpc)
         _, C, Q = sc.call(S, fwc)
